@@ -23,6 +23,7 @@ package c05
 import (
 	"fmt"
 	"runtime"
+	"strings"
 	"sync"
 	"sync/atomic"
 	"testing"
@@ -37,10 +38,11 @@ const (
 	prop = "C05"
 
 	// watchdogs, never a verdict by themselves
-	caseWatchdog = 120 * time.Second // whole concurrent phase
-	stuckProbeAt = 30 * time.Second  // when to start looking for a stable block
-	stuckSamples = 4                 // consecutive identical samples needed
-	stuckEvery   = 1 * time.Second
+	caseWatchdog  = 120 * time.Second // whole concurrent phase
+	stuckProbeAt  = 30 * time.Second  // when to start looking for a stable block
+	shortPatience = 3 * time.Second   // the same, once a full patience has expired in this process
+	stuckSamples  = 4                 // consecutive identical samples needed
+	stuckEvery    = 1 * time.Second
 )
 
 var capSet = []int{1, 2, 3, 8}
@@ -218,6 +220,14 @@ func (m *mon) exit(a *kit.Actor, who string) {
 
 func (m *mon) actor() *kit.Actor { return m.log.NewActor() }
 
+// probeObs counts a quiescence probe, separately those made after holders panicked.
+func (m *mon) probeObs() {
+	m.c.Obs(m.prim+"_quiescence_probes", 1)
+	if m.panics.Load() > 0 {
+		m.c.Obs(m.prim+"_quiescence_probes_after_holder_panics", 1)
+	}
+}
+
 // saturated reports whether the cap was reached at least once.
 func (m *mon) saturated() bool { return m.sat.Load() > 0 }
 
@@ -277,7 +287,8 @@ func (m *mon) await(done <-chan struct{}, what string) bool {
 	select {
 	case <-done:
 		return true
-	case <-time.After(stuckProbeAt):
+	case <-time.After(patience()):
+		patienceExpired()
 	}
 	type snap struct{ st, run, pend, acq, rel, in, ent int64 }
 	take := func() snap {
@@ -295,7 +306,7 @@ func (m *mon) await(done <-chan struct{}, what string) bool {
 		cur := take()
 		// Stamp() itself advances the clock by one per sample
 		if cur.st == prev.st+1 && cur.run == prev.run && cur.pend == prev.pend && cur.acq == prev.acq &&
-			cur.rel == prev.rel && cur.in == prev.in && cur.ent == prev.ent {
+			cur.rel == prev.rel && cur.in == prev.in && cur.ent == prev.ent && !harnessGoroutineRunnable() {
 			same++
 		} else {
 			same = 0
@@ -306,10 +317,60 @@ func (m *mon) await(done <-chan struct{}, what string) bool {
 				fmt.Sprintf("%s: %d acquirers are blocked although only %d of %d units are out (%d acquisitions, %d releases), every live goroutine of the history is inside an acquire call and no holder is inside; nothing moved in %d consecutive samples (%s)",
 					m.prim, cur.pend, cur.acq-cur.rel, m.n, cur.acq, cur.rel, stuckSamples, what),
 				map[string]any{"blocked_acquirers": cur.pend, "acquired": cur.acq, "released": cur.rel, "goroutines": stacksBrief()})
+			leakVerdict(m.prim)
 			return false
 		}
 	}
 	m.c.Inconclusive(fmt.Sprintf("%s: %s did not finish within %v and no stable block could be established", m.prim, what, caseWatchdog))
+	return false
+}
+
+// patience is how long a history is simply waited for before the monitor starts
+// taking samples. It never decides anything: verdicts come from the state being
+// identical in consecutive samples with every harness goroutine parked. Once a
+// full patience has expired in this process the following cases look earlier, so
+// that a run against a tree that really loses capacity ends in reasonable time.
+var slowSeen atomic.Int64
+
+func patience() time.Duration {
+	if slowSeen.Load() > 0 {
+		return shortPatience
+	}
+	return stuckProbeAt
+}
+
+func patienceExpired() { slowSeen.Add(1) }
+
+// After a leak verdict for a primitive the remaining cases of that primitive in
+// this process are skipped (each would sit out its patience for the same verdict).
+var leakSeen sync.Map
+
+func leakVerdict(prim string) { leakSeen.Store(prim, true) }
+
+func skipAfterLeak(c *kit.Case, prim string) bool {
+	if _, ok := leakSeen.Load(prim); ok {
+		c.Obs(prim+"_cases_skipped_after_a_leak_verdict", 1)
+		return true
+	}
+	return false
+}
+
+// harnessGoroutineRunnable reports whether any goroutine with a frame of this
+// package (other than the caller) is runnable / running / in a syscall, i.e. not
+// parked: a state with such a goroutine is not stable, whatever the counters say.
+func harnessGoroutineRunnable() bool {
+	for _, blk := range strings.Split(stacks(), "\n\n") {
+		if !strings.Contains(blk, "verifharness/c05.") || strings.Contains(blk, "c05.harnessGoroutineRunnable") {
+			continue
+		}
+		hdr := blk
+		if i := strings.IndexByte(blk, '\n'); i >= 0 {
+			hdr = blk[:i]
+		}
+		if strings.Contains(hdr, "[runnable") || strings.Contains(hdr, "[running") || strings.Contains(hdr, "[syscall") {
+			return true
+		}
+	}
 	return false
 }
 
@@ -376,21 +437,21 @@ func closeWhenDone(wg *sync.WaitGroup) chan struct{} {
 func TestVerifC05(t *testing.T) {
 	logx.Disable()
 
-	kit.Run(t, prop, "limit-seq", kit.N(60, 2400), limitSeqCase)
-	kit.Run(t, prop, "limit-conc", kit.N(260, 10000), limitConcCase)
-	kit.Run(t, prop, "limit-overreturn", kit.N(80, 3000), limitOverReturnCase)
-	kit.Run(t, prop, "tlimit-seq", kit.N(24, 800), tlimitSeqCase)
-	kit.Run(t, prop, "tlimit-conc", kit.N(200, 8000), tlimitConcCase)
-	kit.Run(t, prop, "pool-conc", kit.N(200, 8000), poolConcCase)
-	kit.Run(t, prop, "pool-age-seq", kit.N(40, 1600), poolAgeSeqCase)
-	kit.Run(t, prop, "pool-age-conc", kit.N(80, 3000), poolAgeConcCase)
-	kit.Run(t, prop, "taskrunner", kit.N(220, 9000), taskRunnerCase)
-	kit.Run(t, prop, "workergroup", kit.N(40, 1500), workerGroupCase)
-	kit.Run(t, prop, "mr-workers", kit.N(160, 6000), mrCase)
-	kit.Run(t, prop, "fx-workers", kit.N(160, 6000), fxCase)
-	kit.Run(t, prop, "maxconns-direct", kit.N(200, 8000), maxConnsDirectCase)
-	kit.Run(t, prop, "maxconns-httptest", kit.N(60, 2000), maxConnsHTTPTestCase)
-	kit.Run(t, prop, "maxconns-restserver", kit.N(32, 600), maxConnsRestServerCase)
+	kit.Run(t, prop, "limit-seq", kit.N(300, 6000), limitSeqCase)
+	kit.Run(t, prop, "limit-conc", kit.N(4000, 100000), limitConcCase)
+	kit.Run(t, prop, "limit-overreturn", kit.N(400, 8000), limitOverReturnCase)
+	kit.Run(t, prop, "tlimit-seq", kit.N(100, 2000), tlimitSeqCase)
+	kit.Run(t, prop, "tlimit-conc", kit.N(2400, 60000), tlimitConcCase)
+	kit.Run(t, prop, "pool-conc", kit.N(3000, 72000), poolConcCase)
+	kit.Run(t, prop, "pool-age-seq", kit.N(150, 3200), poolAgeSeqCase)
+	kit.Run(t, prop, "pool-age-conc", kit.N(1200, 30000), poolAgeConcCase)
+	kit.Run(t, prop, "taskrunner", kit.N(3000, 72000), taskRunnerCase)
+	kit.Run(t, prop, "workergroup", kit.N(300, 6000), workerGroupCase)
+	kit.Run(t, prop, "mr-workers", kit.N(2400, 60000), mrCase)
+	kit.Run(t, prop, "fx-workers", kit.N(2400, 60000), fxCase)
+	kit.Run(t, prop, "maxconns-direct", kit.N(3000, 72000), maxConnsDirectCase)
+	kit.Run(t, prop, "maxconns-httptest", kit.N(500, 10000), maxConnsHTTPTestCase)
+	kit.Run(t, prop, "maxconns-restserver", kit.N(128, 2000), maxConnsRestServerCase)
 
 	kit.End()
 }
